@@ -78,17 +78,50 @@ def agg_frags(matched):
     return [(k[0], k[1], out[k]) for k in order]
 
 
+def handicap_lines(c):
+    """a quarter of the cases: the order's selection is listed on several handicap lines (an Asian-handicap style market), the
+    other lines with ladders of their own; drawn from a generator of its own so that the main random stream stays as it was"""
+    zr = random.Random("hc|%r|%r|%r|%r" % (c["atb"], c["atl"], c["price"], c["size"]))
+    if zr.random() >= 0.25:
+        return 0, []
+    P = DY + DEC
+    lines = zr.sample([-1.5, -0.5, 0.5, 1.5, 2.5], zr.choice([2, 3]))
+    own = zr.choice(lines)
+    others = []
+    for h in lines:
+        if h == own:
+            others.append(None)
+            continue
+        ps = sorted(zr.sample(P, 4))
+        others.append((h, [(p, zr.randrange(1, 400) / 4) for p in sorted(ps[:2], reverse=True)], [(p, zr.randrange(1, 400) / 4) for p in ps[2:]]))
+    return own, others
+
+
 def run_impl(mods, c):
     (bb, Trade, ot, config, mock, BaseStrategy) = mods
+    own_hc, others = handicap_lines(c)
+    if others:
+        runners, rcs = [], []
+        for x in others:
+            if x is None:
+                runners.append({"id": 1, "hc": own_hc, "status": c["rstatus"], "af": 20.0})
+                rcs.append(bb.rc(1, atb=c["atb"], atl=c["atl"], hc=own_hc))
+            else:
+                runners.append({"id": 1, "hc": x[0], "status": "ACTIVE", "af": 20.0})
+                rcs.append(bb.rc(1, atb=x[1], atl=x[2], hc=x[0]))
+        runners.append({"id": 2, "hc": own_hc, "status": "ACTIVE", "af": 80.0})
+    else:
+        runners = [{"id": 1, "status": c["rstatus"], "af": 20.0}, {"id": 2, "status": "ACTIVE", "af": 80.0}]
+        rcs = [bb.rc(1, atb=c["atb"], atl=c["atl"])]
     book = bb.single_book(pt=c["pt"], status=c["mstatus"], version=c["version"], inplay=c["inplay"], bsp_market=c["bsp_market"],
-                          bsp_reconciled=c["bsp_rec"], runners=[{"id": 1, "status": c["rstatus"], "af": 20.0}, {"id": 2, "status": "ACTIVE", "af": 80.0}],
-                          rcs=[bb.rc(1, atb=c["atb"], atl=c["atl"])])
+                          bsp_reconciled=c["bsp_rec"], runners=runners, rcs=rcs)
     # the book as flumine sees it (betfairlightweight sorts the ladders)
-    rb = [r for r in book.runners if r.selection_id == 1][0]
+    rb = [r for r in book.runners if r.selection_id == 1 and (r.handicap or 0) == own_hc][0]
     c["atb"] = [(x["price"], x["size"]) for x in rb.ex.available_to_back]
     c["atl"] = [(x["price"], x["size"]) for x in rb.ex.available_to_lay]
     strategy = mock.Mock(name_hash="0123456789abc")
-    trade = Trade("1.1", 1, 0, strategy)
+    trade = Trade("1.1", 1, own_hc, strategy)
+    c["lines"] = len(others)
     if c["kind"] == "L":
         otype = ot.LimitOrder(price=c["price"], size=c["size"], persistence_type=c["persistence"],
                               time_in_force="FILL_OR_KILL" if c["fok"] else None, min_fill_size=c["minfill"])
@@ -207,7 +240,7 @@ def run(res, tier, seed, model_ok, search):
     rng = random.Random(seed)
     n = 5000 if tier == "quick" and not search else 100000
     res.rule = ("random books (0..6 levels per side, gaps, occasionally unsorted) x orders (both sides, all prices relative to the book, "
-                "FOK with every min-fill shape, BPE on/off, simulated_full_match, market/runner status, package market version, SP order types); "
+                "FOK with every min-fill shape, BPE on/off, a quarter of the books listing the selection on 2-3 handicap lines with ladders of their own, simulated_full_match, market/runner status, package market version, SP order types); "
                 "dyadic and decimal streams; non-trivial = the placement consumed at least one level or took a FOK/BPE decision; distinct = distinct request line")
     cases, lines, impls = [], [], []
     config.simulated = True
@@ -226,6 +259,7 @@ def run(res, tier, seed, model_ok, search):
     for c, line, r, ans in zip(cases, lines, impls, answers):
         tag = "%s:%s:%s" % (c["kind"], "fok" if c["fok"] else "plain", r["err"] if isinstance(r, dict) and r["status"] == "FAILURE" else ("matched" if isinstance(r, dict) and r["frags"] else "rest"))
         res.distribution[tag] += 1
+        res.distribution["handicap_lines_of_the_selection:%d" % (c.get("lines") or 1)] += 1
         if isinstance(r, dict) and (r["frags"] or c["fok"] or r["err"] != "-"):
             res.nontrivial.add(line)
         v = oracle(c, r)
